@@ -90,6 +90,7 @@ func (c16) Gen(seed uint64, run int, tier string) *Plan {
 	k["multi"] = c16b2i(r.Intn(100) < 50)       // a connection registers more than one agent / listener type
 	k["pendclose"] = c16b2i(r.Intn(100) < 35)   // a connection may vanish while it owes an answer
 	k["instant"] = c16b2i(r.Intn(100) < 30)     // services answer agent requests with no latency at all
+	k["agentdup"] = c16b2i(r.Intn(100) < 30)    // several service connections try to register the same agent type name
 	if k["svc"] == 1 {
 		p.Cfg.Service = &world.ServiceCfg{Endpoint: c16SvcEndpoint, Password: c16SvcPassword}
 	}
@@ -160,7 +161,7 @@ func (c16) Gen(seed uint64, run int, tier string) *Plan {
 				if k["failstarts"] == 1 {
 					port = r.Intn(3)
 				}
-				a.L = []int{port, r.Intn(3), r.Intn(3), r.Intn(3)}
+				a.L = []int{port, r.Intn(3), r.Intn(3), r.Intn(3), r.Intn(3)}
 			case 3:
 				s := r.Intn(slots)
 				a.L = []int{s, r.Intn(1 + k["multi"])}
@@ -378,7 +379,14 @@ type c16Edit struct {
 	uris []string
 }
 
+type c16Shared struct {
+	c    *c16Conn
+	k    int
+	spec world.ServiceAgentSpec
+}
+
 type c16State struct {
+	shared   []c16Shared // registrations under the shared agent type name, not yet resolved
 	curGroup []Action // the actions injected together right now
 	w      *world.World
 	res    *Result
@@ -588,6 +596,10 @@ func (st *c16State) inject(a Action, pre []c16Entry) {
 		switch c16abs(a.C) % 4 {
 		case 0:
 			info = c16HTTPInfo(name, c16AddPort(a), c16UAs[c16l(a, 1)%3], c16Hdrs[c16l(a, 2)%3], c16Uris[c16l(a, 3)%3])
+			if c16l(a, 4)%3 == 1 {
+				info["Secure"] = "true" // the HTTPS start path (certificate files, ListenAndServeTLS)
+				res.Probe("https-listener-adds")
+			}
 		case 1:
 			info = map[string]any{"Name": name, "Protocol": "Smb", "PipeName": "pipe_" + name}
 		case 2:
@@ -666,6 +678,17 @@ func (st *c16State) inject(a Action, pre []c16Entry) {
 			k := c16abs(a.B) % 2
 			spec := world.ServiceAgentSpec{Name: c16AgentName(c, k), Magic: c16Magic(c, k), Author: "verif", Description: "third-party agent",
 				Formats: [][2]string{{"Executable", ".bin"}}, SupportedOS: []string{"linux"}}
+			if st.p.Knob("agentdup", 0) == 1 && k == 1 && len(st.curGroup) == 1 {
+				// a name other connections use as well: whoever registered it first (and is still
+				// there) owns it, a later registration is refused and owns nothing
+				// whether the registration was accepted is read off the registry once things have
+				// settled (the entry carries the registrant's magic value): see resolveShared
+				spec.Name = "agent-shared"
+				res.Probe("svc-shared-agent-name")
+				c.sc.RegisterAgent(spec)
+				st.shared = append(st.shared, c16Shared{c, k, spec})
+				return
+			}
 			c.agents[k] = spec
 			c.sc.RegisterAgent(spec)
 			res.Probe("svc-registrations")
@@ -1328,11 +1351,23 @@ func (st *c16State) serviceRegistries(reg []c16Entry) {
 		return
 	}
 	agents := map[string]int{}
+	byName := map[string]int{}
 	for _, a := range w.TS.Service.Agents {
 		if a != nil {
-			agents[a.Name]++
+			agents[a.Name+"/"+a.MagicValue]++
+			byName[a.Name]++
 		}
 	}
+	// registrations under the shared name: accepted if the entry is the registrant's own
+	for _, sh := range st.shared {
+		if agents[sh.spec.Name+"/"+sh.spec.MagicString()] > 0 && !sh.c.closed {
+			sh.c.agents[sh.k] = sh.spec
+			res.Probe("svc-shared-agent-name-owned")
+		} else {
+			res.Probe("svc-shared-agent-name-refused")
+		}
+	}
+	st.shared = nil
 	ltypes := map[string]int{}
 	for _, l := range w.TS.Service.Listeners {
 		if l != nil {
@@ -1369,7 +1404,10 @@ func (st *c16State) serviceRegistries(reg []c16Entry) {
 		}
 		for _, k := range []int{0, 1} {
 			if spec, ok := c.agents[k]; ok {
-				n := agents[spec.Name]
+				n := agents[spec.Name+"/"+spec.MagicString()]
+				if byName[spec.Name] > 1 {
+					res.Violate("C16", "service-duplicate", "agent-type", fmt.Sprintf("agent type %q is registered %d times", spec.Name, byName[spec.Name]), w.Sim)
+				}
 				switch {
 				case c.closed && n > 0:
 					res.Violate("C16", "service-leftover", "agent-type", fmt.Sprintf("agent type %q of vanished service connection %s is still registered", spec.Name, c.sc.Label), w.Sim)
